@@ -3,8 +3,11 @@
    2. find_free_entries (find_free_entries_spec)
    3. write_run / write_entry refine "insert one entry" and keep the slot clauses of C03 (write_entry_refines)
    4. mark_deleted refines "remove one entry" (mark_deleted_refines)
-   5. failed calls (failed_write_unchanged_partial, ..._refuted)
-   6. uniqueness of short names in situ (create_entry_no_dup_short) *)
+   5. failed calls (failed_write_unchanged_partial, failed_write_unchanged, ..._refuted)
+   6. uniqueness of names in situ (create_entry_refines)
+   7. C03 corollaries (slots_wf), rename at the slot level, the finite-map view (dir_map)
+   8. example directories
+   9. the library's own lookup against the decoder (remove_entry_refines, rename_in_dir_refines, ..._insane_refuted) *)
 From Coq Require Import NArith ZArith Lia List Bool Arith.
 From FatVerif Require Import Model.Base Model.Str Model.Slot Model.Time Model.Name Model.ShortName Model.DirSlots
   Spec.Abs Proofs.NameProofs Proofs.ShortNameProofs.
@@ -1328,6 +1331,249 @@ Definition ex_dir1 : slots := snd (write_entry FixedRoot 0 (repeat_N zero_slot 8
 (* ... and then "b" (1 + 1 slots) *)
 Definition ex_dir2 : slots := snd (write_entry FixedRoot 0 ex_dir1 [98] (ex_sfn ex_alias2)).
 
+(* ================================================================ 9. the library's own lookup (find_entry) against the decoder *)
+
+(* The library calls a slot "long-name" when the low nibble of its (truncated) attribute byte is 0xF; the decoder
+   (specification) when the six attribute bits are exactly 0x0F.  They differ on attribute bytes 0x1F/0x2F/0x3F (+0x40,
+   +0x80), which no writer produces.  [attrs_sane]: the two tests agree on this slot. *)
+Definition attrs_sane (s : list N) : Prop :=
+  (N.land (attrs_truncate (byte_at s 11)) ATTR_LFN =? ATTR_LFN) = is_lfn_slot s.
+Definition bytes_ok (s : list N) : Prop := Forall (fun b => b < 256) s.
+
+Lemma bytes_ok_b ss : forallb (forallb (fun b => b <? 256)) ss = true -> Forall bytes_ok ss.
+Proof.
+  intros H. apply Forall_forall. intros s Hs. rewrite forallb_forall in H. specialize (H s Hs).
+  apply Forall_forall. intros b Hb. rewrite forallb_forall in H. apply N.ltb_lt. apply H. exact Hb.
+Qed.
+
+Lemma decode_file_facts bs e : slot_decode bs = SFile e ->
+  (N.land (attrs_truncate (byte_at bs 11)) ATTR_LFN =? ATTR_LFN) = false /\ is_lfn_slot bs = false /\
+  se_name e = firstn 11 bs /\ sfn_is_volume e = is_label_slot bs.
+Proof.
+  intros ED. unfold slot_decode in ED.
+  destruct (N.land (attrs_truncate (byte_at bs 11)) ATTR_LFN =? ATTR_LFN) eqn:EL; [discriminate|]. injection ED as ED.
+  split; [reflexivity|]. split; [|split].
+  - unfold is_lfn_slot. apply N.eqb_neq. intros C. unfold attrs_truncate, ATTR_LFN in EL. rewrite C in EL. discriminate.
+  - rewrite <- ED. reflexivity.
+  - unfold sfn_is_volume, is_label_slot, ATTR_VOLUME_ID. rewrite <- ED. cbn [se_attrs]. unfold attrs_truncate.
+    rewrite land_mod64_8. reflexivity.
+Qed.
+
+(* pending long-name slots of the decoder = the live long-name slots the library's iterator counts back from an entry *)
+Lemma pend_len fat32 : forall pre idx pend before,
+  Forall nonend pre -> Forall attrs_sane pre ->
+  len_N (LfnSpec.take_while LfnSpec.is_live_lfn before) = len_N pend ->
+  len_N (snd (scan_pre pre idx pend fat32)) =
+  len_N (LfnSpec.take_while LfnSpec.is_live_lfn (rev (map slot_decode pre) ++ before)).
+Proof.
+  induction pre as [|s r IH]; intros idx pend before Hne Hs Hinv.
+  - cbn [scan_pre snd map rev app]. symmetry. exact Hinv.
+  - inversion Hne as [|? ? Hn1 Hn2]; subst. inversion Hs as [|? ? Hs1 Hs2]; subst.
+    rewrite scan_pre_pend_step by exact Hn1. cbn [map rev]. rewrite <- app_assoc. cbn [app].
+    apply IH; try assumption.
+    cbn [LfnSpec.take_while]. unfold attrs_sane in Hs1.
+    destruct (slot_decode s) as [e|e] eqn:ED.
+    + destruct (decode_file_facts s e ED) as [_ [NL _]]. cbn [LfnSpec.is_live_lfn]. rewrite NL.
+      destruct (byte_at s 0 =? 229); reflexivity.
+    + cbn [LfnSpec.is_live_lfn]. unfold LfnSpec.lfn_is_deleted, DELETED_FLAG.
+      assert (le_order e = byte_at s 0) as Eo by (rewrite <- (first_byte_decode s), ED; reflexivity). rewrite Eo.
+      destruct (byte_at s 0 =? 229); cbn [negb]; [reflexivity|].
+      unfold slot_decode in ED. destruct (N.land (attrs_truncate (byte_at s 11)) ATTR_LFN =? ATTR_LFN) eqn:EL; [|discriminate].
+      rewrite <- Hs1. unfold len_N in *. cbn [length]. lia.
+Qed.
+
+(* an entry the library lists is an entry the decoder lists, at the same slots *)
+Lemma listed_is_decoded fat32 oem ss es ls ev :
+  dir_scan ss 0 [] fat32 = (es, ls, []) -> Forall attrs_sane ss ->
+  LfnSpec.listed_at oem true [] ss ev ->
+  exists e se, In e es /\ Lfn.ev_raw_name ev = e_sfn e /\
+    Lfn.ev_begin ev / 32 = e_first_slot e /\ Lfn.ev_end ev / 32 = e_sfn_slot e + 1 /\
+    slot_decode (nth (N.to_nat (e_sfn_slot e)) ss []) = SFile se /\ sfn_is_volume se = false /\
+    nth 0 (se_name se) 0 <> 0 /\ nth 0 (se_name se) 0 <> 229 /\
+    e_attr e mod 64 = se_attrs se /\ e_size e = se_size se /\
+    e_cluster e = (if fat32 then se_first_cluster_hi se * 65536 else 0) + se_first_cluster_lo se.
+Proof.
+  intros H0 Hsane (pre & bs & post & se & Hss & Hpre & Hdec & Hne & Hent & Hev).
+  assert (Forall nonend pre) as Hpre'.
+  { eapply Forall_impl; [|exact Hpre]. intros a Ha. cbn beta in Ha. rewrite is_end_decode in Ha. apply N.eqb_neq. exact Ha. }
+  destruct (decode_file_facts bs se Hdec) as [_ [NL [Nm Vol]]].
+  assert (byte_at bs 0 <> 0) as B0 by (rewrite <- Hdec, is_end_decode in Hne; apply N.eqb_neq; exact Hne).
+  unfold LfnSpec.is_entry in Hent. apply andb_true_iff in Hent. destruct Hent as [Hd Hv].
+  rewrite <- Hdec, is_deleted_decode in Hd. apply negb_true_iff in Hd. apply N.eqb_neq in Hd.
+  cbn [andb] in Hv. apply negb_true_iff in Hv.
+  assert (short_live bs) as Hsl by (repeat split; try assumption; rewrite <- Vol; exact Hv).
+  pose proof H0 as H0'. rewrite Hss in H0'. rewrite scan_app in H0' by exact Hpre'.
+  destruct (scan_pre pre 0 [] fat32) as [[[es1 ls1] iss1] pd] eqn:Epre.
+  rewrite scan_short in H0' by exact Hsl. cbn zeta in H0'.
+  destruct (dir_scan post (0 + len_N pre + 1) [] fat32) as [[es2 ls2] iss2].
+  injection H0' as Q1 Q2 Q3.
+  set (e := mk_entry pd bs (0 + len_N pre) fat32) in *.
+  assert (len_N pd = len_N (LfnSpec.take_while LfnSpec.is_live_lfn (rev (map slot_decode pre) ++ []))) as Hpl.
+  { replace pd with (snd (scan_pre pre 0 [] fat32)) by (rewrite Epre; reflexivity). apply pend_len; try assumption.
+    - rewrite Hss in Hsane. apply Forall_app in Hsane. apply Hsane.
+    - reflexivity. }
+  exists e, se. split; [rewrite <- Q1; apply in_or_app; right; left; reflexivity|].
+  subst ev. unfold LfnSpec.entry_at, Lfn.mk_view. cbn [Lfn.ev_raw_name Lfn.ev_begin Lfn.ev_end].
+  unfold e, mk_entry. cbn [e_sfn e_first_slot e_sfn_slot e_attr e_size e_cluster].
+  assert (len_N (rev (map slot_decode pre) ++ []) = len_N pre) as HL
+    by (unfold len_N; rewrite app_nil_r, rev_length, map_length; reflexivity).
+  rewrite HL, <- Hpl.
+  split; [exact Nm|]. split; [rewrite N.mul_comm, N.div_mul by discriminate; lia|].
+  split; [rewrite N.mul_comm, N.div_mul by discriminate; lia|].
+  replace (N.to_nat (0 + len_N pre)) with (length pre) by (unfold len_N; lia).
+  rewrite Hss, nth_middle. split; [exact Hdec|]. split; [exact Hv|].
+  assert (nth 0 (se_name se) 0 = byte_at bs 0) as N0 by (rewrite <- (first_byte_decode bs), Hdec; reflexivity).
+  rewrite N0. split; [exact B0|]. split; [exact Hd|].
+  unfold slot_decode in Hdec. destruct (N.land (attrs_truncate (byte_at bs 11)) ATTR_LFN =? ATTR_LFN); [discriminate|].
+  injection Hdec as <-. cbn [se_attrs se_size se_first_cluster_hi se_first_cluster_lo]. repeat split.
+Qed.
+
+Lemma find_entry_listed upper oem ss name kind ev :
+  find_entry upper oem ss name kind = Ok ev -> LfnSpec.listed_at oem true [] ss ev /\ matches upper oem name ev = true.
+Proof.
+  unfold find_entry, dir_entries. intros H.
+  destruct (Lfn.read_dir Lfn.VecBuf oem true ss) as [l| | |] eqn:R; try discriminate. cbn [bind] in H.
+  destruct (find (matches upper oem name) l) as [ev'|] eqn:F; [|discriminate].
+  apply find_some in F. destruct F as [F1 F2].
+  assert (ev' = ev) as -> by (unfold kind_check in H; destruct kind as [d|]; [destruct (Bool.eqb _ d); [|discriminate]|]; congruence).
+  split; [|exact F2]. apply (LfnProofs.read_dir_listed _ _ _ _ _ R). exact F1.
+Qed.
+
+(* Dir::remove at the slot layer: the library finds an entry by its own matching, and what it deletes is exactly the slot
+   range of ONE decoded entry; the decoding loses exactly that entry, no issue appears *)
+Theorem remove_entry_refines upper oem fat32 ss name ne es ls ss' :
+  dir_scan ss 0 [] fat32 = (es, ls, []) -> Forall attrs_sane ss ->
+  remove_entry upper oem ss name ne = (Ok tt, ss') ->
+  exists ev e es1 es2,
+    find_entry upper oem ss name None = Ok ev /\ matches upper oem name ev = true /\ Lfn.ev_raw_name ev = e_sfn e /\
+    es = es1 ++ e :: es2 /\ ss' = mark_deleted ss (e_first_slot e) (e_sfn_slot e + 1) /\
+    dir_scan ss' 0 [] fat32 = (es1 ++ es2, ls, []) /\
+    (NoDup (map e_sfn es) -> forall key, dir_map (es1 ++ es2) key = if list_eqb (e_sfn e) key then None else dir_map es key).
+Proof.
+  intros H0 Hs H. unfold remove_entry, lift in H.
+  destruct (find_entry upper oem ss name None) as [ev| | |] eqn:F; try discriminate.
+  destruct (is_special ev); [discriminate|]. destruct (Lfn.ev_is_dir ev && ne); [discriminate|].
+  injection H as <-.
+  destruct (find_entry_listed _ _ _ _ _ _ F) as [HL HM].
+  destruct (listed_is_decoded fat32 oem ss es ls ev H0 Hs HL) as [e [se [Hin [Hn [Hb [He _]]]]]].
+  destruct (mark_deleted_refines fat32 ss es ls e H0 Hin) as [es1 [es2 [E1 [E2 _]]]]. cbn zeta in E2.
+  exists ev, e, es1, es2. split; [reflexivity|]. split; [exact HM|]. split; [exact Hn|]. split; [exact E1|].
+  unfold delete_entry, DIR_ENTRY_SIZE. rewrite Hb, He. split; [reflexivity|]. split; [exact E2|].
+  intros ND key. rewrite E1 in *. apply dir_map_remove. exact ND.
+Qed.
+
+Lemma decoded_fields_ok bs se : bytes_ok bs -> slot_decode bs = SFile se -> forall a, length a = 11%nat ->
+  sfn_fields_ok (renamed se a).
+Proof.
+  intros Hb Hd a Ha. unfold slot_decode in Hd.
+  destruct (N.land (attrs_truncate (byte_at bs 11)) ATTR_LFN =? ATTR_LFN); [discriminate|]. injection Hd as <-.
+  assert (forall i, byte_at bs i < 256) as B by (intros i; apply LfnProofs.byte_at_lt; exact Hb).
+  assert (forall i, u16_at bs i < 65536) as W by (intros i; apply LfnProofs.u16_at_lt; exact Hb).
+  constructor; unfold renamed;
+    cbn [se_name se_attrs se_reserved_0 se_create_time_0 se_create_time_1 se_create_date se_access_date
+         se_first_cluster_hi se_modify_time se_modify_date se_first_cluster_lo se_size]; auto.
+  - unfold attrs_truncate. lia.
+  - apply LfnProofs.u32_at_lt. exact Hb.
+Qed.
+
+(* Dir::rename within one directory (rename_internal with dst_dir = self), on success: either nothing changed (the
+   destination names the source entry itself: D22), or the decoding loses exactly the source entry and gains exactly one
+   entry with the new long name, a fresh legal alias, and the source's attributes, size and first cluster *)
+Theorem rename_in_dir_refines upper oem k free fat32 ss src dst es ls ss' :
+  dir_scan ss 0 [] fat32 = (es, ls, []) -> len_N ss < 134217728 -> Forall attrs_sane ss -> Forall bytes_ok ss ->
+  NoDup (map e_sfn es) ->
+  rename_in_dir upper oem k free ss src dst = (Ok tt, ss') ->
+  ss' = ss \/
+  exists e ne es',
+    In e es /\ dir_scan ss' 0 [] fat32 = (es', ls, []) /\
+    e_lfn ne = (if is_dot_name dst then [] else utf16_encode dst) /\ e_lfn_ok ne = true /\
+    sfn_legal_b (e_sfn ne) = true /\ ~ In (e_sfn ne) (map e_sfn es) /\
+    e_attr ne = e_attr e mod 64 /\ e_size ne = e_size e /\ e_cluster ne = e_cluster e /\
+    forall key, dir_map es' key =
+      if list_eqb (e_sfn ne) key then Some ne else if list_eqb (e_sfn e) key then None else dir_map es key.
+Proof.
+  intros H0 Hb Hs Hby ND H. unfold rename_in_dir, lift in H.
+  destruct (find_entry upper oem ss src None) as [ev| | |] eqn:F; try discriminate.
+  destruct (is_special ev); [discriminate|].
+  destruct (check_for_existence upper oem ss dst None) as [[dv|a]| | |] eqn:C; try discriminate.
+  { left. destruct (Lfn.ev_end ev =? Lfn.ev_end dv); [|discriminate]. injection H as <-. reflexivity. }
+  right.
+  destruct (write_entry k free (delete_entry ss ev) dst (renamed (entry_data ss ev) a)) as [w ss2] eqn:W.
+  destruct w as [[p q]| | |]; try discriminate. cbn [bind] in H. injection H as <-.
+  (* the alias *)
+  unfold check_for_existence in C.
+  destruct (validate_long_name dst) as [[]| | |] eqn:V; try discriminate. cbn [bind] in C.
+  destruct (dir_entries oem ss) as [l| | |] eqn:DE; try discriminate. cbn [bind] in C.
+  destruct (find (matches upper oem dst) l) as [xv|] eqn:Fd.
+  { destruct (kind_check xv None); discriminate. }
+  destruct (alias_for dst (map Lfn.ev_raw_name l) (S (length l / 9))) as [a'| | |] eqn:AF; try discriminate.
+  cbn [bind] in C. injection C as ->.
+  pose proof (sfn_legal _ _ _ _ AF) as HL. pose proof (sfn_unique _ _ _ _ AF) as HU.
+  rewrite (dir_entries_sfns fat32 oem ss l es ls [] DE H0) in HU.
+  destruct (sfn_legal_first a HL) as [L1 [L2 L3]].
+  (* the source entry *)
+  destruct (find_entry_listed _ _ _ _ _ _ F) as [HLi _].
+  destruct (listed_is_decoded fat32 oem ss es ls ev H0 Hs HLi)
+    as [e [se [Hin [Hn [Hbg [Hen [Hdec [Hvol [_ [_ [Hat [Hsz Hcl]]]]]]]]]]]].
+  assert (entry_data ss ev = se) as Ed.
+  { unfold entry_data, DIR_ENTRY_SIZE. rewrite Hen. replace (e_sfn_slot e + 1 - 1) with (e_sfn_slot e) by lia.
+    rewrite Hdec. reflexivity. }
+  assert (delete_entry ss ev = mark_deleted ss (e_first_slot e) (e_sfn_slot e + 1)) as Edel
+    by (unfold delete_entry, DIR_ENTRY_SIZE; rewrite Hbg, Hen; reflexivity).
+  rewrite Ed, Edel in W.
+  assert (bytes_ok (nth (N.to_nat (e_sfn_slot e)) ss [])) as Hbs.
+  { destruct (nth_in_or_default (N.to_nat (e_sfn_slot e)) ss []) as [I|D].
+    - rewrite Forall_forall in Hby. apply Hby. exact I.
+    - rewrite D. constructor. }
+  assert (sfn_live (renamed se a)) as Hlive.
+  { constructor; [apply (decoded_fields_ok _ _ Hbs Hdec a L1)| | |]; unfold renamed; cbn [se_name se_attrs]; try assumption.
+    unfold sfn_is_volume, ATTR_VOLUME_ID in Hvol. apply negb_false_iff in Hvol. apply N.eqb_eq in Hvol. exact Hvol. }
+  assert (forall x, In x es -> x <> e -> e_sfn x <> se_name (renamed se a)) as Hnew.
+  { intros x Hx _ C. apply HU. cbn [renamed se_name] in C. rewrite <- C. apply in_map. exact Hx. }
+  destruct (rename_slots_refines k free fat32 ss dst (renamed se a) es ls e p q ss2 H0 Hb Hin Hlive W)
+    as [a1 [b1 [c1 [d1 [ne [E1 [E2 [E3 [E4 [E5 [E6 [E7 [E8 [E9 _]]]]]]]]]]]]]].
+  destruct (rename_refines_map k free fat32 ss dst (renamed se a) es ls e p q ss2 H0 Hb Hin ND Hlive Hnew W)
+    as [es' [ne' [G1 [G2 [G3 G4]]]]].
+  assert (es' = c1 ++ ne :: d1) as -> by congruence.
+  assert (ne' = ne) as ->.
+  { specialize (G4 (e_sfn ne)). cbn [renamed se_name] in *. rewrite <- E6 in G4 at 1.
+    assert (list_eqb (e_sfn ne) (e_sfn ne) = true) as R by (apply list_eqb_eq; reflexivity). rewrite R in G4.
+    rewrite dir_map_insert in G4.
+    - rewrite R in G4. congruence.
+    - rewrite <- E2, E6. intros C. apply HU. rewrite E1. rewrite !map_app in *. cbn [map].
+      apply in_app_or in C. apply in_or_app. destruct C; [left|right; right]; assumption. }
+  exists e, ne, (c1 ++ ne :: d1). cbn [renamed se_name se_attrs se_size se_first_cluster_hi se_first_cluster_lo] in *.
+  split; [exact Hin|]. split; [exact E3|]. split; [exact E4|]. split; [exact E5|].
+  split; [rewrite E6; exact HL|]. split; [rewrite E6; exact HU|].
+  split; [rewrite E7; symmetry; exact Hat|]. split; [rewrite E8; symmetry; exact Hsz|]. split; [rewrite E9; symmetry; exact Hcl|].
+  intros key. rewrite G4, E6. reflexivity.
+Qed.
+
+(* D20 at this layer: "a failed rename leaves the directory unchanged" is FALSE for the code as it is - the source slots
+   are deleted before the new entry is written; when that write fails (here: the fixed root is full, WriteZero after 5 of
+   6 slots) the source entry is gone and an orphan run is left *)
+Theorem rename_failed_unchanged_refuted :
+  exists ss src dst ss',
+    rename_in_dir upper_ascii oem_decode_lossy FixedRoot 0 ss src dst = (Err EWriteZero, ss') /\
+    map e_lfn (fst (fst (dir_scan ss 0 [] false))) = [ex_name1; [98]] /\ snd (dir_scan ss 0 [] false) = [] /\
+    map e_lfn (fst (fst (dir_scan ss' 0 [] false))) = [ex_name1] /\ snd (dir_scan ss' 0 [] false) = [DOrphanLfn 8].
+Proof. exists ex_dir2, [98], (repeat_N 99 53). eexists. split; [vm_compute; reflexivity|]. vm_compute. repeat split. Qed.
+
 (* the three finite-map statements as one theorem, and the two slot-clause statements as one (Props/ states them in full) *)
-Definition dir_refines_map := conj create_refines_map (conj remove_refines_map rename_refines_map).
+Definition dir_refines_map := conj create_refines_map (conj remove_entry_refines rename_in_dir_refines).
+
+(* without [attrs_sane] the library's remove takes a neighbouring slot with it: a slot with attribute byte 0x1F is a
+   volume label for the decoder (bit 3) but a long-name slot for the library (low nibble 0xF), so it lies inside the
+   offset range of the entry that follows it *)
+Definition ex_weird : list N := [88; 32; 32; 32; 32; 32; 32; 32; 32; 32; 32; 31] ++ repeat_N 0 20.
+Theorem remove_entry_insane_refuted :
+  exists ss name ss' es ls,
+    dir_scan ss 0 [] false = (es, ls, []) /\ ls <> [] /\
+    remove_entry upper_ascii oem_decode_lossy ss name false = (Ok tt, ss') /\
+    dir_scan ss' 0 [] false = ([], [], []) /\ ~ Forall attrs_sane ss.
+Proof.
+  exists [ex_weird; ex_live; zero_slot], [98]. eexists. eexists. eexists.
+  split; [vm_compute; reflexivity|]. split; [discriminate|]. split; [vm_compute; reflexivity|]. split; [vm_compute; reflexivity|].
+  intros C. inversion C as [|? ? C1 _]; subst. vm_compute in C1. discriminate.
+Qed.
 Definition slot_clauses_preserved := conj write_entry_keeps_wf mark_deleted_keeps_wf.
